@@ -1038,6 +1038,9 @@ def display_check(text, x, limit):
     """-> None if `text` is a faithful rendering of the Fraction x, else a reason.  Oracle written from the property text:
     read back (sign, digits, exponent) = x cut off toward zero at the last printed digit; mark present <=> something non-zero was cut."""
     m = _DISP.match(text)
+    if not m and limit == 0:
+        # with no digit budget the scientific form prints its point with nothing after it (`4.…e3`): still reads back as a decimal
+        m = _DISP.match(text.replace(".", "", 1)) if re.match(r"^-?\d\.(…|e|$)", text) else None
     if not m:
         return "not of the form [-]digits[.digits][…][e[-]digits]"
     sign, ip, fp, mark, ex = m.groups()
@@ -1081,6 +1084,15 @@ def c08(rac, units, tier, seed, known_p=()):
         for el in range(1, ELIM + 1):
             for x in [F(1, 8), F(1, 3), F(123456, 1), F(1234565, 10), F(10 ** 9), F(10 ** 9) + F(1, 2), F(200000001, 2), F(-200000001, 2), F(999999999, 1), F(1, 10 ** 7), F(1234567, 10 ** 7), F(-1, 8), F(31, 2), F(10 ** el), F(10 ** el) - 1, F(10 ** el) + F(1, 10 ** lim), F(1, 10 ** el), F(1, 10 ** (el + 1)), F(15, 10 ** (el + 2))]:
                 cases.append((x, lim, el))
+    # digit limit 0 ("every display precision"): only for |x| >= 1 -- a value below one has no digit at all to print then, and what the
+    # text should be in that case is not said by the property (the pinned tree prints `…e-1` for 0.5)
+    big = [x for x in vals if abs(x) >= 1]
+    for _ in range(cap // 20):
+        x = rnd.choice(big) * F(10) ** rnd.choice([0, 0, 3, 6, 9])
+        cases.append((x, 0, rnd.randint(1, ELIM)))
+    for x in [F(5, 2), F(-5, 2), F(22, 7), F(2), F(-2), F(12345000001, 10 ** 6), F(10 ** 9) + F(1, 2), F(10 ** 9)]:
+        for el in range(1, ELIM + 1):
+            cases.append((x, 0, el))
     ans = rac.ask_many([{"cmd": "display", "n": str(x.numerator), "d": str(x.denominator), "limit": lim, "exp": el} for x, lim, el in cases], chunk=2000)
     for (x, lim, el), a in zip(cases, ans):
         key = (x, lim, el)
